@@ -155,11 +155,11 @@ func defaultStrides(shape []int, col bool) []int {
 
 type c03Judge struct {
 	oldNonDefault bool // the strides the in-place mover will divide by are not the default row-major ones
-	c       *core.Ctx
-	src     string
-	tn      string
-	shape   []int
-	corrupt bool
+	c             *core.Ctx
+	src           string
+	tn            string
+	shape         []int
+	corrupt       bool
 }
 
 func (j *c03Judge) viol(st *c03State, op string, symptom, want, got string) {
